@@ -339,7 +339,7 @@ pub fn run_config(prop: &str, cfg: &Config, idx: u64) -> FamilyResult {
                     Action::Move(from, d) => match rm::nb(from.index(), dir_index(*d)) {
                         Some(to) => {
                             let c = b[from.index()];
-                            c != rm::EMPTY && if rm::is_gold(c) { cfg.dom_gold.contains(&to) } else { cfg.dom_silver.contains(&to) }
+                            c != rm::EMPTY && cfg.allowed(rm::is_gold(c), to, n.hist.len() == 1)
                         }
                         None => false,
                     },
